@@ -14,7 +14,7 @@ RULE = ("op sequences: first `clock T0` (T0 = 1.9e12 + offsets on/around bucket 
         "invalid and NaN triggers), injected load/cpu readings exactly at a loaded trigger, at the adjacent floats (bit pattern +-1), +-1e-9, +-1e-4, +-1e-3, +-0.25, "
         "well above, plus NaN / +-Inf / negative / -0 / denormal readings, then 10-90 ops: inbound / outbound / default-type (no WithTrafficType option) entries over 4 resources "
         "with batch counts {0,1,2,3,7,none}, exits in random order, time steps {0,1,50..400,499,500,501,999,1000,1001,>array, to next bucket "
-        "boundary}, rule reloads (fresh slices, and the same slice after an in-place change of one rule object), stat reads (incl. the error count of `exit … err`), `rules` reads of system.GetRules(), nil pointers in the loaded slice, memory-usage injections; four profiles (mixed, burst = many entries per bucket, bbr = load above trigger with "
+        "boundary}, rule reloads (fresh slices, and the same slice after an in-place change of one rule object), stat reads (incl. the error count of `exit … err`), `rules` reads of system.GetRules(), nil pointers in the loaded slice, memory-usage injections, changes of the configured metric statistic shape, `many n` = n fresh resource names entered and exited (0.1 % of the cases with n > 10000 = base.DefaultMaxResourceAmount); four profiles (mixed, burst = many entries per bucket, bbr = load above trigger with "
         "completions in the window so that the capacity estimate is the deciding term, rt = response times of a few ms against avgRT triggers between whole ms). Non-trivial = the case contains at least one "
         "system block and one inbound pass decided while >=1 rule was loaded; distinct by (multiset of loaded (metric,strategy), "
         "sequence of decisions).")
@@ -178,6 +178,14 @@ def gen_case(rng, cid):
             if rng.random() < 0.6:
                 ops.append(f"sys {kind} {fbv(sys_value(rng, kind, rules))}")
     ops.append(rules)
+    # the configured metric statistic shape (what InitWithConfig leaves behind): never an input of the inbound node
+    if rng.random() < 0.08:
+        ops.append("config " + rng.choice(["1 1000", "1 500", "4 2000", "10 5000", "5 5000", "20 10000", "2 1000"]))
+        GEN_STATS["config"] += 1
+    # a few cases push the resource node map past base.DefaultMaxResourceAmount (10000 names) before the decisions
+    if rng.random() < 0.001:
+        ops.append(f"many {rng.choice([10001, 10500])}")
+        GEN_STATS["many:>10000"] += 1
     live, nid = [], 0
     nops = rng.randint(10, 90)
     p_in = {"mixed": 0.7, "burst": 0.85, "bbr": 0.9, "rt": 0.9}[profile]
@@ -212,6 +220,12 @@ def gen_case(rng, cid):
         elif r < 0.90:
             if rng.random() < 0.08:     # memory usage: not an input of any system rule
                 ops.append(f"sys mem {rng.choice([-1, 0, 1 << 20, 1 << 40])}")
+            elif rng.random() < 0.06:
+                ops.append("config " + rng.choice(["1 1000", "4 2000", "2 1000", "10 5000"]))
+                GEN_STATS["config"] += 1
+            elif rng.random() < 0.06:
+                ops.append(f"many {rng.choice([1, 3, 20])}")
+                GEN_STATS["many:small"] += 1
             else:
                 kind = rng.choice(["load", "cpu"])
                 ops.append(f"sys {kind} {fbv(sys_value(rng, kind, rules))}")
